@@ -71,6 +71,7 @@ def run_tlc(work, module, cfg, env=None, workers=None, timeout=900, simulate=Non
     meta = os.path.join(work, "states-" + module + "-" + str(os.getpid()))
     shutil.rmtree(meta, ignore_errors=True)
     os.makedirs(tmp, exist_ok=True)
+    xmx = os.environ.get("VERIF_XMX", xmx)     # (parallel lanes of tools/parseed.py use a smaller heap)
     jopts = ["-XX:+UseParallelGC", "-Xss512m", "-Xmx" + xmx, "-Djava.io.tmpdir=" + tmp]
     if depth_first:
         jopts.append("-Dtlc2.tool.queue.IStateQueue=StateDeque")
@@ -341,7 +342,7 @@ class Ctx:
         # size budget for the generators' scale shapes (see harness/src/bin/record.rs): TLC needs
         # about a second per 25 KB of JSON, so the quick tier admits a few inputs of up to ~80 000
         # bytes per driver run and the thorough tier (nearly) everything
-        big = kw.pop("big", None) or ((330000, 700000) if self.quick else (4000000, 12000000))
+        big = kw.pop("big", None) or ((450000, 1200000) if self.quick else (4000000, 12000000))
         renv = dict(os.environ, VERIF_BIG_MAX=str(big[0]), VERIF_BIG_BUDGET=str(big[1]))
         p = subprocess.run(cmd, capture_output=True, text=True, env=renv)
         if p.returncode != 0:
